@@ -5,8 +5,8 @@
 EXTENDS PromDown, TLC, Json
 
 CONSTANTS NS,          \* series 1..NS
-          NB,          \* samples live in the buckets 0..NB-1
-          NE,          \* evaluation buckets 0..NE
+          SB,          \* the 15 s buckets samples live in (a set of numbers 0..63)
+          EB,          \* the buckets a request may start and end at
           Vals,        \* value pool
           MaxSamples,
           Fns, Ranges, Steps,
@@ -17,11 +17,11 @@ VARIABLES db, req
 vars == <<db, req>>
 
 None == [fn |-> "none", R |-> 0, S |-> 1, st |-> 0, en |-> 0]
-Samples == [s : 1..NS, b : 0..(NB - 1), p : 0..2, v : Vals]
-Slot(x) == (x.s * NB + x.b) * 3 + x.p
-Requests == {r \in [fn : Fns, R : Ranges \cup {0}, S : Steps, st : 0..NE, en : 0..NE] :
+Samples == [s : 1..NS, b : SB, p : 0..2, v : Vals]
+Slot(x) == (x.s * 64 + x.b) * 3 + x.p
+Requests == {r \in [fn : Fns, R : Ranges \cup {0}, S : Steps, st : EB, en : EB] :
                 /\ r.st <= r.en
-                /\ (r.fn = "") = (r.R = 0)
+                /\ (r.fn \in InstFns) = (r.R = 0)
                 /\ (r.en - r.st) \div r.S < MaxEvals}
 
 DbHash == SumF([i \in 1..Len(db) |-> (i * 7 + 3) * (Slot(db[i]) * 11 + db[i].v)], 1..Len(db)) + Len(db)
@@ -49,11 +49,11 @@ AsCoded == AllQuirks
 CaseRec(d, ma, fired) ==
     [db |-> db, req |-> req, lb |-> LB, def |-> d, coded |-> ma, fired |-> fired]
 
-\* the smallest quirk sets whose mechanism gives the as-coded answer ma
-Explain(ma) ==
-    LET good == {Q \in SUBSET AsCoded : Mech(D, req, Q) = ma}
-        mc   == MinOf({Cardinality(Q) : Q \in good})
-    IN  {Q \in good : Cardinality(Q) = mc}
+\* the smallest quirk sets whose mechanism gives the as-coded answer ma (searched by increasing size)
+ExplainK(ma, k) == {Q \in SUBSET AsCoded : Cardinality(Q) = k /\ Mech(D, req, Q) = ma}
+RECURSIVE ExplainFrom(_, _)
+ExplainFrom(ma, k) == LET e == ExplainK(ma, k) IN IF e # {} \/ k >= Cardinality(AsCoded) THEN e ELSE ExplainFrom(ma, k + 1)
+Explain(ma) == ExplainFrom(ma, 1)
 
 AllChecks ==
     req.fn # "none" =>
